@@ -2,6 +2,7 @@ import CanvasModel.C06Proto
 import CanvasProofs.Lemmas.Wn
 import CanvasProofs.Lemmas.C06Path
 import CanvasProofs.Lemmas.C06Boundary
+import CanvasProofs.Lemmas.C06Cross
 import CanvasGen.SweepF
 
 /-! # C06 — Containment and winding queries (partial)
@@ -226,31 +227,59 @@ example : ∀ k (hk : k < [((true, [⟨5, 5⟩, ⟨6, 5⟩, ⟨6, 6⟩]) : Sub),
   refine ⟨rfl, ⟨0, 0⟩, [⟨9, 0⟩, ⟨9, 9⟩, ⟨0, 9⟩], rfl, ?_⟩
   simp [offChain, subpathVerts, onSeg, isLeft]
 
-/-- `Path.Crossings`: without a hit at the ray start, the count is the sum of the half-crossings:
-2 inside a segment, 1 at an end point (a vertex on the ray counts as one crossing whether the path
-crosses or only touches there), −1 for an overlapping end-point hit. -/
-theorem crossings_is_half_sum (zs : List Z) (h : Int) (b : Bool) (hc : ∀ z ∈ zs, z.t0zero = false) :
-    crossHalves zs h b = (h + H zs, b) := crossHalves_sum zs h b hc
+/-! ## Crossings (13dd06a: walk along the path, count the side changes) -/
 
-theorem crossings_generic (zs : List Z) (h : Int) (b : Bool)
-    (hg : ∀ z ∈ zs, z.t0zero = false ∧ z.endpoint = false ∧ z.same = false) :
-    crossHalves zs h b = (h + 2 * zs.length, b) := crossHalves_generic zs h b hg
+/-- only crossings strictly inside segments: every hit is one crossing -/
+theorem crossings_generic (l : List Hit) (st : CSt) (n : Int) (b : Bool)
+    (hg : ∀ h ∈ l, h.t0zero = false ∧ h.tb = .mid ∧ h.same = false) (pe : Option Hit) :
+    crossWalk pe l st n b = (n + l.length, b, st) :=
+  crossWalk_generic l st n b hg pe
 
-/-- in the generic case the parity of Crossings is the parity of Windings -/
-theorem crossings_parity_generic (zs : List Z) :
-    (crossingSum zs - (zs.length : Int)) % 2 = 0 := by
-  induction zs with
-  | nil => simp [crossingSum]
-  | cons z rest ih =>
-    simp only [crossingSum, dir, List.length_cons]
-    split <;> push_cast <;> omega
+/-- The invariant of the walk along ANY vertex chain off the query point: twice the count, plus what
+the state (overlapping section entered / left before being entered) and the pending end hit still
+owe, is the weight sum of the hits modulo 4; the pending hit exists exactly at a vertex on the ray;
+the boundary flag is untouched. -/
+theorem crossings_walk_invariant (p a : IPt) (rest : List IPt) (pe : Option Hit) (st : CSt) (n : Int)
+    (b : Bool) (hoff : offChain p (a :: rest)) (hp : PendOK p a pe) (hi : CInv st pe) :
+    ∃ n' st' pe', crossWalkP pe (chainHits p (a :: rest)) st n b = (n', b, st', pe') ∧
+      PendOK p ((a :: rest).getLast (by simp)) pe' ∧ CInv st' pe' ∧
+      (2 * n' + cphi st' + pw pe' -
+        (2 * n + cphi st + pw pe + W ((chainHits p (a :: rest)).map Hit.z))) % 4 = 0 :=
+  chain_cross p rest a pe st n b hoff hp hi
 
-/-- a ray touching a peak vertex: Windings counts 0, Crossings counts one -/
-example : windings [⟨false, false, true, false⟩, ⟨false, true, true, false⟩] = .ok 0 false ∧
-    crossHalves [⟨false, false, true, false⟩, ⟨false, true, true, false⟩] 0 false = (2, false) := by
-  constructor
-  · simp [windings, go, dir]
-  · decide
+example : PendOK ⟨-1, 0⟩ ⟨2, 3⟩ none ∧ CInv {} none :=
+  ⟨⟨fun h => by simp [fR] at h, fun _ => rfl⟩, ⟨fun h => by simp at h, fun e he => by simp at he⟩⟩
+
+/-- Crossings of a closed flat subpath at EVERY point off the path (vertices, the start vertex,
+horizontal edges on the ray, touching and crossing alike): the count has the parity of the winding
+number, the boundary flag is left alone. -/
+theorem crossings_parity_is_winding_parity (p a : IPt) (r : List IPt) (b : Bool)
+    (hoff : offChain p (subpathVerts true (a :: r))) :
+    (crossingsSub true p (a :: r) b).2 = b ∧
+    ((crossingsSub true p (a :: r) b).1 - wn1 p (a :: r)) % 2 = 0 :=
+  crossingsSub_parity p a r b hoff
+
+/-- `Path.Crossings` decides the even-odd fill rule: for closed flat subpaths and a point off the path
+no boundary is reported and EvenOdd.Fills(Crossings) = EvenOdd.Fills(winding number). -/
+theorem crossings_decides_evenodd (p : IPt) (subs : List Sub) (h : ∀ s ∈ subs, GoodSub p s) :
+    (crossingsPath p subs).2 = false ∧
+    Rule.evenOdd.fills (crossingsPath p subs).1 = Rule.evenOdd.fills (wn p (subs.map (·.2))) := by
+  have := crossingsPathGo_parity p subs h 0 false
+  simp only [crossingsPath]
+  refine ⟨this.1, ?_⟩
+  have h2 := this.2
+  simp only [Rule.fills]
+  congr 1
+  apply propext
+  constructor <;> intro hh <;> omega
+
+/-- the L-shaped polygon whose crossing along a horizontal edge the old half counts missed, a
+triangle with a redundant vertex on its bottom edge (old count −1), and a ray touching a peak vertex
+(now 0 crossings) -/
+example : crossingsPath ⟨-2, 0⟩ [(true, [⟨0, 0⟩, ⟨8, 0⟩, ⟨8, -6⟩, ⟨-4, -6⟩, ⟨-4, 6⟩, ⟨0, 6⟩])] = (1, false) ∧
+    crossingsPath ⟨-6, 0⟩ [(true, [⟨0, 0⟩, ⟨8, 0⟩, ⟨8, 8⟩, ⟨-4, 0⟩])] = (0, false) ∧
+    crossingsPath ⟨-2, 6⟩ [(true, [⟨0, 0⟩, ⟨8, 0⟩, ⟨4, 6⟩])] = (0, false) := by
+  refine ⟨by decide +kernel, by decide +kernel, by decide +kernel⟩
 
 /-! ## CCW -/
 
